@@ -45,4 +45,7 @@ UNIT = dict(
         ("struct", "CacheConfig", "config"),
         ("struct", "Cache", "lib"),
     ],
+    frame=[
+        dict(name="lru_is_the_default_policy", tags=[], pattern=r"#\[default\]\s*Lru\b", glob=CA + "eviction.rs", only_in=None, min_hits=1),
+    ],
 )
